@@ -583,6 +583,43 @@ def lock_contention(ctx, res, stats, ncases):
                                                dict(case, failing_call=i)))
 
 
+def text_values(ctx, res, stats):
+    """text kept in value files whose encoded length differs from its number of characters (2-, 3- and 4-byte code points, mixed
+    with ASCII), written by set / add / push / replace / incr-free updates on Cache and FanoutCache: the recorded size must be
+    the size of the file (and Settings.size their sum), check() silent"""
+    alphabets = {'ascii': 'a', 'latin': '\u00e9', 'greek': '\u03b1\u03b2', 'cjk': '\u4e2d', 'astral': '\U0001f600', 'mixed': 'a\u00e9\u4e2d\U0001f600'}
+    for kind in ('cache', 'fanout'):
+        for minf in (8, 32768):
+            d = ctx.scratch('c08t')
+            c = (diskcache.Cache(d, disk_min_file_size=minf) if kind == 'cache' else diskcache.FanoutCache(d, shards=2, disk_min_file_size=minf))
+            dirs = [d] if kind == 'cache' else [os.path.join(d, '%03d' % i) for i in range(2)]
+            done = []
+            try:
+                for name, a in sorted(alphabets.items()):
+                    text = (a * (minf // len(a) + 3))
+                    c.set('s:' + name, text)
+                    c.add('a:' + name, text + 'z')
+                    c.set('s:' + name, text + text)            # replacing
+                    if kind == 'cache':
+                        c.push(text, prefix='q')
+                    done.append(name)
+                    stats['text_values'] = stats.get('text_values', 0) + 1
+                    res.count(['text', kind, minf, name], nontrivial=True)
+                    bad = [b for dd in dirs for b in consistency(dd)[0]]
+                    if bad:
+                        sig, msg = bad[0]
+                        res.violations.append(fw.Violation('text_value:' + sig, '%s after storing %s text of %d characters (%d bytes encoded) on %s' % (
+                            msg, name, len(text), len(text.encode('utf-8')), kind), {'check': 'text', 'kind': kind, 'min_file_size': minf, 'alphabets': done}))
+                        break
+                else:
+                    libw = lib_check(c)
+                    if libw:
+                        res.violations.append(fw.Violation('text_value:check_warns', 'check() reports %s' % libw[:2],
+                                                           {'check': 'text', 'kind': kind, 'min_file_size': minf, 'alphabets': done}))
+            finally:
+                c.close()
+
+
 def witnesses(res):
     import tempfile, shutil
     d = tempfile.mkdtemp(prefix='c08wit-')
@@ -633,7 +670,8 @@ def run(ctx, big=False):
                 'file-backed values and read=True streams, removals, counters (retry=False, timeout=0: the call gives up) and Cache.__setitem__ / '
                 'Deque / Index methods (the call waits; the lock is released before its k-th BEGIN attempt) while a second Cache handle inside '
                 'transact() or a plain sqlite3 connection after BEGIN IMMEDIATE holds the write lock (any subset of FanoutCache shards), decided '
-                'after the lock is released; row/file model compared after every call.  '
+                'after the lock is released; text values of 1- to 4-byte code points kept in files (recorded size = encoded size); '
+                'row/file model compared after every call.  '
                 'non-trivial = at least one value file exists in the observed state / the fault fired.')
     stats = {'states': 0, 'file_rows': 0, 'fault_runs': 0, 'faults_fired': 0, 'unencodable': 0}
     thorough = not ctx.quick or big
@@ -642,6 +680,7 @@ def run(ctx, big=False):
     unencodable(ctx, res, stats)
     open_races(ctx, res, stats, 12 if not thorough else 150)
     lock_contention(ctx, res, stats, 48 if not thorough else 600)
+    text_values(ctx, res, stats)
     if not ctx.search_mode:
         correspondence(ctx, res, terms, recs)
     res.extra.update({'states_checked': stats['states'], 'file_backed_rows_seen': stats['file_rows'],
@@ -665,6 +704,16 @@ def replay(payload):
             problems, info = run_contention_case(case, ctx.scratch('c08l'))
             print('contention:', problems, info)
             return not problems
+        finally:
+            ctx.cleanup()
+    if case.get('check') == 'text':
+        ctx = fw.Ctx('C08', 'quick', 1)
+        try:
+            r = fw.Result()
+            text_values(ctx, r, {})
+            for v in r.violations:
+                print('text values:', v.sig, v.desc)
+            return not r.violations
         finally:
             ctx.cleanup()
     if case.get('check') not in ('history', 'fault'):
